@@ -6,7 +6,7 @@ Operations (JSON-able lists):
   ['engine', e]                                  create engine e
   ['load', e, clauses, overwrite, mode]          compile+load clauses; mode 'ok' | 'syntax-error' | 'runtime-error'
   ['assert', e, term, append]                    YP.assert_fact
-  ['register', e, name, style, arity, rows, yields]   register_function; style 'inferred' | 'explicit' | 'variadic'
+  ['register', e, name, style, arity, rows, yields]   register_function; style 'inferred' | 'explicit' | 'explicit-optional' (a parameter with a default beyond the arity) | 'variadic'
   ['clear', e]
   ['open', e, qid, goal]                         create a query generator (not advanced)
   ['step', qid]                                  next() on it -> answer | 'stop'
@@ -259,10 +259,11 @@ class ImplWorld:
         fn = make_pyfunc(yp, rows, arity, style, yields, None)
         if style == 'inferred':
             yp.register_function(name, fn)
-        elif style == 'explicit':
+        elif style in ('explicit', 'explicit-optional'):
             yp.register_function(name, fn, arity=arity)
         else:
-            yp.register_function(name, fn, arity=-1)
+            # "a negative integer": any of them means variable arity
+            yp.register_function(name, fn, arity=variadic_arity(name, arity))
         return 'ok'
 
     def op_clear(self, e):
@@ -382,6 +383,11 @@ class ImplWorld:
         return ['db', impl.read_db(self.eng[e], keys)]
 
 
+def variadic_arity(name, arity):
+    """the negative number a variadic registration passes (documented: any negative integer)"""
+    return (-1, -2, -1, -7)[(len(name) + arity) % 4]
+
+
 def make_pyfunc(yp, rows, arity, style, yields, log):
     """a Python predicate that unifies its arguments with each row (fresh variables for non-ground rows) and
     yields yields[i % len] per solution"""
@@ -405,7 +411,10 @@ def make_pyfunc(yp, rows, arity, style, yields, log):
         return f
     # fixed signature with exactly `arity` parameters (arity inferred from it)
     names = ['a%d' % i for i in range(arity)]
-    src = 'def f(%s):\n    return solutions([%s])\n' % (', '.join(names), ', '.join(names))
+    params = list(names)
+    if style == 'explicit-optional':
+        params.append('trace=None')         # one optional parameter more than the arity it is registered with
+    src = 'def f(%s):\n    return solutions([%s])\n' % (', '.join(params), ', '.join(names))
     ns = {'solutions': solutions, '__name__': 'userpreds'}      # like functions of an ordinary user module
     exec(src, ns)
     return ns['f']
